@@ -23,6 +23,8 @@ type LConn struct {
 	Tp     *Peer
 	Opened bool
 	OpenAt int // step
+	TpTarget int // index of the target whose socket was matched (Cross mode)
+	Expect   int // expected target index, -1 = must be refused (C03)
 }
 
 // ConnSet manages k logical connections and matches target-side sockets to
@@ -35,19 +37,27 @@ type ConnSet struct {
 	nOpen int
 	// KeySpan is how many accept indexes of a target an application must be able to recognise.
 	KeySpan int
+	// Cross lets every receiver recognise every writer of the run (mis-routing becomes attributable).
+	Cross bool
 }
 
 func NewConnSet(r *Run, w *World, first string, conns []*LConn) *ConnSet {
 	cs := &ConnSet{R: r, W: w, Conns: conns, First: first}
 	for ti, t := range w.Targets {
 		ti := ti
-		var keys []Candidate
+		var keys, allKeys []Candidate
 		for _, lc := range conns {
 			if lc.TIdx == ti {
 				keys = append(keys, AppKey(r.Seed, lc.I))
 			}
+			allKeys = append(allKeys, AppKey(r.Seed, lc.I))
 		}
-		t.Cands = func() []Candidate { return keys }
+		t.Cands = func() []Candidate {
+			if cs.Cross {
+				return allKeys
+			}
+			return keys
+		}
 		if first == "target" {
 			t.Plan = func(j int) []Op { return []Op{{Kind: "write", N: 1}} }
 		}
@@ -61,6 +71,14 @@ func NewConnSet(r *Run, w *World, first string, conns []*LConn) *ConnSet {
 
 func (cs *ConnSet) tgtKeys(ti int) []Candidate {
 	var ks []Candidate
+	if cs.Cross {
+		for x := range cs.W.Targets {
+			for j := 0; j < len(cs.Conns)+4; j++ {
+				ks = append(ks, TargetKey(cs.R.Seed, cs.W.Targets[x].Index, j))
+			}
+		}
+		return ks
+	}
 	span := cs.KeySpan
 	if span == 0 {
 		span = len(cs.Conns) + 4
@@ -115,11 +133,16 @@ func (cs *ConnSet) Assign() {
 		if lc.Tp != nil || !lc.Opened {
 			continue
 		}
-		t := cs.W.Targets[lc.TIdx]
 		if cs.First == "app" {
-			for _, p := range t.Peers() {
-				if _, rc, _, _, _, pk := p.Snapshot(); rc > 0 && pk == lc.App.TxKey {
-					lc.Tp = p
+			for ti, t := range cs.W.Targets {
+				if ti != lc.TIdx && !cs.Cross {
+					continue
+				}
+				for _, p := range t.Peers() {
+					if _, rc, _, _, _, pk := p.Snapshot(); rc > 0 && pk == lc.App.TxKey {
+						lc.Tp = p
+						lc.TpTarget = ti
+					}
 				}
 			}
 		} else {
